@@ -44,7 +44,7 @@ variable whose domain is inside the entry's interval. -/
 theorem boxEnforced_of_entries {b : BoundsMap (Ext K)} {d : List (DomVar (Ext K))}
     (h : ∀ n bd, lookupB b n = some bd → ∃ dv ∈ d, dv.name = n ∧ dv.usage > 0 ∧
       ∀ x : K, inDomain x dv.ty = true → Encl bd x) : BoxEnforced b d := by
-  intro ρ hd n bd hl
+  intro ρ hd n bd _ hl
   obtain ⟨dv, hdv, rfl, hu, henc⟩ := h n bd hl
   exact henc _ (hd dv hdv hu)
 
